@@ -1,6 +1,7 @@
 mod batch;
 mod check;
 mod clock;
+mod crash;
 mod disk;
 mod exec;
 mod exec_dirs;
@@ -55,6 +56,8 @@ fn prop_static(p: &str) -> Option<&'static str> {
 fn engine_of(prop: &str) -> &'static str {
     if FS_PROPS.contains(&prop) {
         "fs-history"
+    } else if prop == "C09" || prop == "C10" {
+        "fs-crash"
     } else {
         "unknown"
     }
@@ -63,6 +66,7 @@ fn engine_of(prop: &str) -> &'static str {
 fn run_case(prop: &str, seed: u64) -> CaseOutcome {
     match engine_of(prop) {
         "fs-history" => fscheck::fs_case(prop, seed),
+        "fs-crash" => crash::crash_case(prop_static(prop).unwrap(), seed),
         _ => panic!("no engine for {}", prop),
     }
 }
@@ -76,6 +80,10 @@ fn replay_case(prop: &str, case: &Value) -> Result<CaseOutcome, String> {
     }
     match engine_of(prop) {
         "fs-history" => fscheck::fs_replay(prop, case),
+        "fs-crash" => {
+            let sc: ops::Scenario = serde_json::from_value(case.clone()).map_err(|e| format!("bad scenario: {}", e))?;
+            Ok(crash::crash_replay(prop_static(prop).unwrap(), &sc))
+        }
         _ => Err(format!("no engine for {}", prop)),
     }
 }
@@ -90,12 +98,35 @@ fn minimise_case(prop: &str, case: &Value, sig: &str) -> Value {
             let m = fscheck::fs_minimise(prop, &sc, sig, 600);
             serde_json::to_value(&m).unwrap()
         }
+        "fs-crash" => {
+            let sc: ops::Scenario = match serde_json::from_value(case.clone()) {
+                Ok(s) => s,
+                Err(_) => return case.clone(),
+            };
+            let p = prop_static(prop).unwrap();
+            let test = |c: &ops::Scenario| crash::crash_replay(p, c).viols.iter().find(|v| v.prop == p && v.signature() == sig).map(|v| v.op_idx);
+            let m = fscheck::minimise_with(&sc, 400, &test);
+            serde_json::to_value(&m).unwrap()
+        }
         _ => case.clone(),
+    }
+}
+
+fn meta(prop: &str) -> (&'static str, String, Value, Vec<String>) {
+    match engine_of(prop) {
+        "fs-crash" => (
+            "fault_enumeration",
+            format!("one case = one simulated history (profile biased to create/write/flush/close/delete/mkdir on small volumes with stale-looking free clusters) executed fault-free while every block write is logged; then EVERY prefix of the write log is materialised as 'power failed after write k' and judged ({}); evaluations = crash points judged; non-trivial = the history produced at least one block write; distinct = distinct hash of event log + crash-point sequence", if prop == "C09" { "every file whose flush/close returned success and that was not modified since must be found with at least the flushed length and exactly the flushed contents, by the independent reader and by a fresh mount of the library" } else { "volume mounts (reader and library), every chain in range/acyclic/terminated/not through free or bad entries, no cross-links, every sub-directory entry has its own cluster with correct dot entries, every live name is from before or after the interrupted call (stale cluster contents show up as unknown names)" }),
+            fscheck::fs_components(),
+            vec!["exhaustive over the crash points of each explored history (every write-log prefix); histories themselves are sampled".to_string()],
+        ),
+        _ => ("exploration", fscheck::fs_rule(prop), fscheck::fs_components(), vec![]),
     }
 }
 
 fn runs_for(prop: &str, tier: &str) -> u64 {
     let quick = match prop {
+        "C09" | "C10" => 20_000,
         "C01" | "C06" | "C07" | "C08" => 40_000,
         "C02" => 30_000,
         _ => 25_000,
@@ -120,24 +151,14 @@ fn cmd_check(prop: &str, tier: &str) -> i32 {
     let runs = env_u64("VERIF_RUNS", runs_for(prop, tier));
     let budget = env_u64("VERIF_BUDGET_S", if tier == "thorough" { 1500 } else { 240 }) as f64;
     let known = Known::load();
-    let level = "exploration";
-    let cfg = BatchCfg {
-        prop,
-        tier: tier.to_string(),
-        seed,
-        runs,
-        jobs,
-        budget_s: budget,
-        level,
-        rule: fscheck::fs_rule(prop),
-        engine: engine_of(prop),
-        components: fscheck::fs_components(),
-        assumptions: vec![
-            "block writes are atomic and ordered; the library issues single-block transfers only (multi-block calls are counted and would be reported)".into(),
-            "the FAT reader, formatter and reference model in /verif/sim are correct readings of the FAT specification (cross-checked by `sdmmc-sim selftest`)".into(),
-            "histories, geometries and trees are sampled, not enumerated: a clean batch is evidence, not proof".into(),
-        ],
-    };
+    let (level, rule, components, extra_assumptions) = meta(prop);
+    let mut assumptions = vec![
+        "block writes are atomic and ordered; the library issues single-block transfers only (multi-block calls are counted and would be reported)".to_string(),
+        "the FAT reader, formatter, reference model and card model in /verif/sim are correct readings of the FAT and SD specifications (cross-checked by `sdmmc-sim selftest`)".to_string(),
+        "histories, geometries, trees and timings are sampled, not enumerated: a clean batch is evidence, not proof".to_string(),
+    ];
+    assumptions.extend(extra_assumptions);
+    let cfg = BatchCfg { prop, tier: tier.to_string(), seed, runs, jobs, budget_s: budget, level, rule, engine: engine_of(prop), components, assumptions };
     println!("check {} tier={} seed={} runs<={} jobs={} engine={}", prop, tier, seed, runs, jobs, cfg.engine);
     let res = run_batch(&cfg, &known, |s, _i| run_case(prop, s));
     write_evidence(prop, &res.evidence);
